@@ -439,8 +439,11 @@ def ignored(rng, rich=True):
     return ''
 
 
-def render(rng, toks, style='rich'):
-    """Join lexemes with generated ignored material.  style: rich | plain | minimal."""
+def render(rng, toks, style='rich', offsets=None):
+    """Join lexemes with generated ignored material.  style: rich | plain | minimal.
+
+    If `offsets` is a list, the character offset of every lexeme is appended to it.
+    """
     out = []
     if style == 'rich' and rng.random() < 0.15:
         out.append(rng.choice(['\ufeff', '\n', ' ', comment(rng)]))
@@ -453,6 +456,8 @@ def render(rng, toks, style='rich'):
             if not gap and needs_sep(toks[i - 1], tok):
                 gap = ' '
             out.append(gap)
+        if offsets is not None:
+            offsets.append(sum(len(x) for x in out))
         out.append(tok)
     if style == 'rich' and rng.random() < 0.2:
         out.append(rng.choice(['\n', ' ', '#end', ',', '\r']))
